@@ -9,6 +9,8 @@ def sh(cmd, **kw): return subprocess.run(cmd, capture_output=True, text=True, **
 def main():
     ids = [a for a in sys.argv[1:] if not a.startswith("-")] or sorted(os.listdir(os.path.join(V, "harmless")))
     props = [c["property_id"] for c in json.load(open(os.path.join(V, "MANIFEST.json")))["checks"]]
+    if os.environ.get("HARMLESS_PROPS"):
+        props = [p for p in props if p in os.environ["HARMLESS_PROPS"].split(",")]
     if sh(["git", "-C", REPO, "status", "--porcelain"]).stdout.strip():
         print("refusing: /repo is not clean"); return 2
     saved = {}
